@@ -66,6 +66,15 @@ class Interval:
         return 'Interval(%r, %r, %r, %r)' % (self.start, self.end, self.includes_start, self.includes_end)
 
 
+def _real_call():
+    """the real hail.genetics.call.Call (class extracted by AST)"""
+    ctree = ast.parse(open(os.path.join(PY, 'genetics', 'call.py')).read())
+    cns = {'Sequence': Sequence, 'typecheck_method': _deco, 'typecheck': _deco, 'nullable': lambda *a, **kw: object, 'sequenceof': lambda *a, **kw: object, 'anytype': object}
+    exec(compile(ast.Module(body=[n for n in ctree.body if isinstance(n, ast.ClassDef) and n.name == 'Call'], type_ignores=[]), 'call-extract', 'exec'), cns)
+    return cns['Call']
+
+
+Call = _real_call()
 NA = type('NAType', (), {'__repr__': lambda s: '<NA>'})()
 try:
     import numpy as np
@@ -78,25 +87,30 @@ ns = {
     'nullable': lambda *a, **kw: object, 'oneof': lambda *a, **kw: object, 'transformed': lambda *a, **kw: object, 'sequenceof': lambda *a, **kw: object,
     'frozenlist': tuple, 'frozendict': frozendict, 'Struct': Struct,
     'pd': types.SimpleNamespace(NA=NA), 'np': np if np is not None else types.SimpleNamespace(ndarray=object, int32=int, int64=int, float32=float, float64=float, bool_=bool),
-    'genetics': types.SimpleNamespace(Locus=Locus, Call=object), '_empty_context': None, '__name__': 'c33_types',
+    'genetics': types.SimpleNamespace(Locus=Locus, Call=Call), '_empty_context': None, '__name__': 'c33_types',
 }
 misc = ast.parse(open(os.path.join(PY, 'utils', 'misc.py')).read())
 exec(compile(ast.Module(body=[n for n in misc.body if isinstance(n, ast.FunctionDef) and n.name == 'lookup_bit'], type_ignores=[]), 'misc-extract', 'exec'), ns)
 path = os.path.join(PY, 'expr', 'types.py')
 tree = ast.parse(open(path).read())
-WANTED = ['HailType', '_tint32', '_tint64', '_tfloat32', '_tfloat64', '_tstr', '_tbool', 'tarray', 'tset', '_freeze_this_type', 'tdict', 'tstruct', 'ttuple', 'tlocus', 'tinterval']
+WANTED = ['HailType', '_tvoid', '_tcall', '_tint32', '_tint64', '_tfloat32', '_tfloat64', '_tstr', '_tbool', 'tarray', 'tset', '_freeze_this_type', 'tdict', 'tstruct', 'ttuple', 'tlocus', 'tinterval']
 hl = types.SimpleNamespace(Interval=Interval)
 ns['hl'] = hl
 for node in tree.body:
     if isinstance(node, ast.ClassDef) and node.name in WANTED:
         exec(compile(ast.Module(body=[node], type_ignores=[]), path, 'exec'), ns)
-    if isinstance(node, ast.Assign) and isinstance(node.targets[0], ast.Name) and node.targets[0].id == '_numeric_types':
+    if isinstance(node, ast.FunctionDef) and node.name in ('allele_pair', 'allele_pair_sqrt'):
+        exec(compile(ast.Module(body=[node], type_ignores=[]), path, 'exec'), ns)
+    if isinstance(node, ast.Assign) and isinstance(node.targets[0], ast.Name) and node.targets[0].id in ('_numeric_types', 'small_allele_pair'):
         exec(compile(ast.Module(body=[node], type_ignores=[]), path, 'exec'), ns)
 missing_cls = [w for w in WANTED if w not in ns]
 if missing_cls:
     print(json.dumps({'confirmed': False, 'harness_error': 'classes not found: %r' % missing_cls}))
     sys.exit(0)
 T = {k: ns[c]() for k, c in (('int32', '_tint32'), ('int64', '_tint64'), ('float32', '_tfloat32'), ('float64', '_tfloat64'), ('str', '_tstr'), ('bool', '_tbool'))}
+T['call'] = ns['_tcall']()
+ns['tvoid'] = ns['_tvoid']()
+ns['tcall'] = T['call']
 hl.tbool = T['bool']
 hl.tstr, hl.tint32 = T['str'], T['int32']
 
@@ -153,6 +167,13 @@ def ref(d, v):
     if k == 'str':
         b = v.encode('utf-8')
         return struct.pack('<i', len(b)) + b
+    if k == 'call':
+        # bit-packed call, one int32: bit 0 phased, bits 1-2 ploidy, bits 3.. the allele representation (haploid: the allele;
+        # diploid: the VCF index k(k+1)/2 + j of the pair, a phased pair (a, b) being stored as (a, a + b)) - for EVERY ploidy
+        al = list(v.alleles)
+        rep = 0 if not al else (al[0] if len(al) == 1 else ((al[0] + al[1]) * (al[0] + al[1] + 1) // 2 + al[0] if v.phased else al[1] * (al[1] + 1) // 2 + al[0]))
+        x = (int(bool(v.phased)) | (len(al) << 1) | (rep << 3)) & 0xFFFFFFFF
+        return struct.pack('<I', x)
     if k in ('array', 'set'):
         xs = list(v)
         return struct.pack('<i', len(xs)) + ref_fields([(d[1], x) for x in xs])
@@ -189,6 +210,8 @@ def norm(d, v):
         return ('interval', norm(d[1], v.start), norm(d[1], v.end), bool(v.includes_start), bool(v.includes_end))
     if k == 'locus':
         return ('locus', v.contig, v.position)
+    if k == 'call':
+        return ('call', list(v.alleles), bool(v.phased)) if isinstance(v, Call) else ('<not a call>', repr(v))
     return v
 
 
@@ -266,6 +289,32 @@ def battery():
     yield ('array', ('struct', [('s', ('set', ('array', I)))])), [{'s': {frozenlist([7, None])}}, None], 'set of arrays below a struct'
     yield ('array', ('array', I)), [[1, None], None, [], [None] * 9 + [4]], 'nested array'
     yield ('struct', [('a', ('array', S)), ('b', ('struct', [('c', I), ('d', ('tuple', [I, S]))])), ('e', ('dict', S, S))]), {'a': ['x', None], 'b': {'c': None, 'd': (1, None)}, 'e': {'k': 'v'}}, 'nested struct'
+    # a struct VALUE is a mapping: its own key order is not part of the value (Struct equality ignores it) - the layout follows
+    # the TYPE's field order whatever order the value lists its fields in
+    fs3 = [('a', I), ('b', S), ('c', ('float64',))]
+    for order in itertools.permutations(range(3)):
+        full = {'a': 7, 'b': 'xy', 'c': 2.5}
+        holes = {'a': 1, 'b': 'q', 'c': None}
+        for src in (full, holes):
+            reordered = {fs3[i][0]: src[fs3[i][0]] for i in order}
+            yield ('struct', fs3), reordered, 'struct value listing its fields in another order than the type'
+            yield ('struct', fs3), Struct(**reordered), 'Struct value listing its fields in another order than the type'
+    yield ('array', ('struct', [('x', S), ('n', ('int64',))])), [{'x': 'a', 'n': 1}, {'n': 2, 'x': 'b'}, None, {'n': None, 'x': 'c'}], 'records with arbitrary key order'
+    fs9 = [('g%d' % i, I) for i in range(9)]
+    yield ('struct', fs9), {f: (None if i in (0, 8) else i) for i, (f, _) in reversed(list(enumerate(fs9)))}, 'struct value in reverse field order, two missing-bit bytes'
+    # bit-packed calls: every ploidy, phased and unphased (the phase bit is bit 0 for EVERY ploidy)
+    C = ('call',)
+    for ph in (False, True):
+        yield C, Call([], phased=ph), 'call of ploidy 0'
+        for a in (0, 1, 5, 65535, 65536, (1 << 28) - 1):
+            yield C, Call([a], phased=ph), 'haploid call'
+    for k in (0, 1, 2, 3, 7, 44, 45, 46, 255, 1000, 23170, 32767):
+        for j in sorted({0, 1, k // 2, max(k - 1, 0), k}):
+            if j <= k and k * (k + 1) // 2 + j < (1 << 28):
+                yield C, Call([j, k]), 'unphased diploid call'
+                yield C, Call([j, k - j], phased=True), 'phased diploid call'
+    yield ('array', C), [Call([1], phased=True), None, Call([0, 1]), Call([], phased=True), Call([2, 1], phased=True)], 'array of calls'
+    yield ('struct', [('GT', C), ('DP', I)]), {'GT': Call([0], phased=True), 'DP': 3}, 'struct holding a call'
     yield ('interval', I), Interval(1, 5, True, False), 'interval'
     yield ('interval', I), Interval(None, 5, False, True), 'interval'
     yield ('interval', ('locus',)), Interval(Locus('1', 100, 'GRCh37'), Locus('X', 5, 'GRCh37'), True, True), 'interval of loci'
@@ -274,6 +323,54 @@ def battery():
 
 
 NA_MARK = ('int32',)
+
+
+def execute_cases():
+    """the real Backend.execute (function extracted by AST from hail/backend/backend.py) over a stand-in engine that answers
+    with the bytes of the value in the engine layout: the value must come back for every non-void type - also when its
+    encoding has zero bytes (struct{} / tuple()) -, None only for void"""
+    btree = ast.parse(open(os.path.join(PY, 'backend', 'backend.py')).read())
+    cls = [n for n in btree.body if isinstance(n, ast.ClassDef) and n.name == 'Backend']
+    fns = [n for n in cls[0].body if isinstance(n, ast.FunctionDef) and n.name == 'execute'] if cls else []
+    if not fns:
+        return {'harness_error': 'Backend.execute not found'}
+    fn = fns[0]
+    fn.decorator_list = []
+    fn.returns = None
+    for a in fn.args.args + fn.args.kwonlyargs:
+        a.annotation = None
+
+    class FatalError(Exception):
+        pass
+
+    ens = {'ExecutePayload': lambda *a, **kw: ('payload', a, kw), 'ActionTag': types.SimpleNamespace(EXECUTE='EXECUTE'), 'FatalError': FatalError, 'tvoid': ns['tvoid'], 'Any': object}
+    exec(compile(ast.Module(body=[fn], type_ignores=[]), 'backend-extract', 'exec'), ens)
+    I, S = ('int32',), ('str',)
+    cases = [
+        (('struct', []), {}), (('tuple', []), ()), (('struct', [('a', I)]), {'a': 5}), (('tuple', [I]), (None,)), (('tuple', [('struct', [])]), ({},)),
+        (('array', ('struct', [])), [{}, {}]), (('array', I), []), (S, ''), (I, 0), (('bool',), False), (('dict', S, I), {}),
+    ]
+    n = 0
+    for d, v in cases:
+        t = hail_type(d)
+        data = ref(d, v)
+        for timed in (False, True):
+            n += 1
+            rec = {'type': repr(d), 'value': repr(v), 'case': 'Backend.execute(ir of that type%s), the engine answering with the %d byte(s) %s' % (', timed=True' if timed else '', len(data), data.hex())}
+            be = types.SimpleNamespace(functions=[], _render_ir=lambda ir: 'rendered', _rpc=lambda action, payload, data=data: (data, {'t': 1}))
+            try:
+                got = ens['execute'](be, types.SimpleNamespace(typ=t), timed=timed)
+            except Exception as e:  # pylint: disable=broad-except
+                return dict(rec, confirmed=True, what='Backend.execute cannot decode the answer of the engine: %r' % (e,), cases=n, input={'type': rec['type'], 'value': rec['value'], 'engine_bytes': data.hex()})
+            val = got[0] if (timed and isinstance(got, tuple) and len(got) == 2) else got
+            if (timed and not (isinstance(got, tuple) and len(got) == 2 and got[1] == {'t': 1})) or val is None or norm(d, val) != norm(d, v):
+                return dict(rec, confirmed=True, what='Backend.execute returns another value than the one the engine sent', returned=repr(got), cases=n, input={'type': rec['type'], 'value': rec['value'], 'engine_bytes': data.hex()})
+    be = types.SimpleNamespace(functions=[], _render_ir=lambda ir: 'rendered', _rpc=lambda action, payload: (b'', None))
+    n += 1
+    got = ens['execute'](be, types.SimpleNamespace(typ=ns['tvoid']))
+    if got is not None:
+        return {'confirmed': True, 'what': 'Backend.execute returns a value for an IR of type void', 'returned': repr(got), 'cases': n, 'input': {'type': 'void'}}
+    return {'confirmed': False, 'cases': n}
 
 
 def main():
@@ -289,6 +386,19 @@ def main():
             r['input'] = {'type': r['type'], 'value': r['value']}
             res = r
             break
+    if not res.get('confirmed'):
+        try:
+            ex = execute_cases()
+        except Exception as e:  # pylint: disable=broad-except
+            ex = {'harness_error': 'Backend.execute battery: %r' % (e,)}
+        if ex.get('confirmed'):
+            ex['cases'] += res['cases']
+            res = ex
+        elif 'harness_error' in ex:
+            res['execute_harness_error'] = ex['harness_error']
+        else:
+            res['cases'] += ex['cases']
+            res['execute_cases'] = ex['cases']
     # the n-d array fast path must stay dead: instances of the numeric types are never members of the set of their classes
     res['ndarray_numeric_fast_path_live_for'] = [k for k in ('bool', 'int32', 'int64', 'float32', 'float64') if T[k] in ns['_numeric_types']]
     print(json.dumps(res, default=repr))
